@@ -883,10 +883,10 @@ loop:
 	c.Ev.Count("cases."+cs.Kind+"."+cs.Config, 1)
 	if fired {
 		c.Ev.Count("crash_fired."+cs.Point, 1)
-		c.Ev.Nontrivial(fmt.Sprintf("%s/k=%d/delay=%d/%s/%s/rockswal=%v/%s/%s", cs.Point, cs.K, cs.DelayMs, cs.Opts.Engine, cs.Config, cs.Opts.UseRocksWAL, cs.VictimRole, cs.Kind))
+		c.Ev.Nontrivial(fmt.Sprintf("%s/k=%d/delay=%d/%s/%s/rockswal=%v/optfsync=%v/%s/%s", cs.Point, cs.K, cs.DelayMs, cs.Opts.Engine, cs.Config, cs.Opts.UseRocksWAL, cs.Opts.OptimizedFsync, cs.VictimRole, cs.Kind))
 	} else if cs.Kind == "extkill" || cs.Kind == "tailkill" {
 		c.Ev.Count("crash_fired.external-kill", 1)
-		c.Ev.Nontrivial(fmt.Sprintf("%s/after=%d/tail=%d/snapcount=%d/%s/%s/rockswal=%v/%s", cs.Kind, cs.KillAfter, cs.TailRun, cs.Opts.SnapCount, cs.Opts.Engine, cs.Config, cs.Opts.UseRocksWAL, cs.VictimRole))
+		c.Ev.Nontrivial(fmt.Sprintf("%s/after=%d/tail=%d/snapcount=%d/%s/%s/rockswal=%v/optfsync=%v/%s", cs.Kind, cs.KillAfter, cs.TailRun, cs.Opts.SnapCount, cs.Opts.Engine, cs.Config, cs.Opts.UseRocksWAL, cs.Opts.OptimizedFsync, cs.VictimRole))
 	} else {
 		c.Ev.Count("crash_not_reached."+cs.Point, 1)
 	}
@@ -966,7 +966,7 @@ loop:
 		sig = "unwritten-value-present"
 	}
 	extra["detail"] = detail
-	x.violation(sig, fmt.Sprintf("case %d (%s %s rockswal=%v, %s k=%d delay=%dms fired=%v): after restart on the same directory: %s", cs.Index, cs.Config, cs.Opts.Engine, cs.Opts.UseRocksWAL, cs.tag(), cs.K, cs.DelayMs, fired, detail), extra)
+	x.violation(sig, fmt.Sprintf("case %d (%s %s rockswal=%v optfsync=%v, %s k=%d delay=%dms fired=%v): after restart on the same directory: %s", cs.Index, cs.Config, cs.Opts.Engine, cs.Opts.UseRocksWAL, cs.Opts.OptimizedFsync, cs.tag(), cs.K, cs.DelayMs, fired, detail), extra)
 	return
 }
 
